@@ -26,6 +26,7 @@ type Type struct {
 	BareVec  bool   // written "vector<...>" (no vector id on the wire)
 	Optional bool   // flags.N?T
 	Bit      int
+	File     string // schema file the type name is resolved in (api_latest.tl and mtproto.tl both have a "Message")
 }
 
 type Def struct {
@@ -118,10 +119,21 @@ func parseDef(line, file string, function bool) (*Def, error) {
 		if err != nil {
 			return nil, err
 		}
+		setFile(&t, file)
 		d.Params = append(d.Params, Param{Name: f[:i], Type: t, Raw: f[i+1:]})
 	}
 	return d, nil
 }
+
+func setFile(t *Type, file string) {
+	t.File = file
+	if t.Elem != nil {
+		setFile(t.Elem, file)
+	}
+}
+
+// Ctors returns the constructors of a boxed type as defined in the given schema file.
+func (s *Schema) Ctors(file, name string) []*Def { return s.Types[file+":"+name] }
 
 // CanonicalCRC computes the constructor id TL assigns to a definition line: CRC-32 of the line with the explicit
 // id and the trailing ';' removed, flags.N?true parameters dropped, bytes written as string, angle brackets
@@ -145,6 +157,10 @@ func CanonicalCRC(line string) uint32 {
 // ParseFile reads one .tl file. dormantHeader: also read "// name#id ... = T;" lines before the first blank line
 // of the file header as dormant definitions.
 func ParseFile(path string, dormantHeader bool) ([]*Def, error) {
+	return parseFileAs(path, filepath.Base(path), dormantHeader)
+}
+
+func parseFileAs(path, fileName string, dormantHeader bool) ([]*Def, error) {
 	b, err := os.ReadFile(path)
 	if err != nil {
 		return nil, err
@@ -168,7 +184,7 @@ func ParseFile(path string, dormantHeader bool) ([]*Def, error) {
 			if header {
 				body := strings.TrimSpace(strings.TrimPrefix(line, "//"))
 				if defRe.MatchString(body) && strings.Contains(body, "#") {
-					d, err := parseDef(body, filepath.Base(path), false)
+					d, err := parseDef(body, fileName, false)
 					if err == nil {
 						d.Dormant = true
 						defs = append(defs, d)
@@ -183,7 +199,7 @@ func ParseFile(path string, dormantHeader bool) ([]*Def, error) {
 			strings.HasPrefix(line, "int ?") {
 			continue // builtin declarations of mtproto.tl
 		}
-		d, err := parseDef(line, filepath.Base(path), function)
+		d, err := parseDef(line, fileName, function)
 		if err != nil {
 			return nil, fmt.Errorf("%s:%d: %v: %s", path, n+1, err, line)
 		}
@@ -206,7 +222,7 @@ func Load() (*Schema, error) {
 		name    string
 		dormant bool
 	}{{"api_latest.tl", true}, {"mtproto.tl", false}} {
-		defs, err := ParseFile(filepath.Join(RepoDir(), "schemes", f.name), f.dormant)
+		defs, err := parseFileAs(filepath.Join(RepoDir(), "schemes", f.name), f.name, f.dormant)
 		if err != nil {
 			return nil, err
 		}
@@ -221,7 +237,7 @@ func Load() (*Schema, error) {
 			}
 			s.ByName[f.name+":"+d.Name] = d
 			if !d.Function {
-				s.Types[d.Result] = append(s.Types[d.Result], d)
+				s.Types[f.name+":"+d.Result] = append(s.Types[f.name+":"+d.Result], d)
 			}
 		}
 	}
